@@ -707,6 +707,30 @@ def boundary_cases(rng):
                 out.append({'argv': ['http://a.example/', '-r'] + e, 'hostnames': ['a.example'],
                             'url': 'http://b.example/blog/x.html',
                             'record': dict(base, level=lvl, try_count=tc, root_url='http://b.example/blog/sub/'), 'is_redirect': red})
+    # no-parent: root directory x URL directory on the same host, other scheme, other port
+    pths = ['/a/b/', '/a/b', '/a/', '/', '/a/bc/', '/a/b/c', '/a/b/x.html', '/a/x', '/x', '/a/bc', '/a/b/c/d']
+    for rootp in pths[:6]:
+        for up in pths:
+            for rs, us in (('http://a.example', 'http://a.example'), ('http://a.example', 'https://a.example'),
+                           ('http://a.example', 'http://a.example:8080'), ('ftp://a.example', 'ftp://a.example'),
+                           ('http://a.example', 'ftp://a.example'), ('http://a.example', 'http://www.a.example')):
+                out.append({'argv': ['http://a.example/', '-r', '-H', '--follow-ftp', '--no-parent'], 'hostnames': ['a.example'],
+                            'url': us + up, 'record': dict(base, root_url=rs + rootp), 'is_redirect': False})
+    # domain / host lists: every host against every list element
+    for h in HOSTS:
+        for d in DOMAIN_POOL:
+            for opt in ('-D', '--exclude-domains', '--hostnames', '--exclude-hostnames'):
+                out.append({'argv': ['http://a.example/', '-r', '-H', opt, d], 'hostnames': ['a.example'],
+                            'url': 'http://%s/blog/x.html' % h, 'record': dict(base), 'is_redirect': False})
+    # span-hosts policy: allow lists x inline / parent host
+    for allow in ([], ['--span-hosts-allow', 'page-requisites'], ['--span-hosts-allow', 'linked-pages'],
+                  ['--span-hosts-allow', 'linked-pages,page-requisites'], ['-H']):
+        for inline in (None, 0, 1):
+            for parent in (None, 'http://a.example/', 'http://b.example/', 'http://xa.example/'):
+                for h in ('a.example', 'b.example', 'xa.example'):
+                    out.append({'argv': ['http://a.example/', '-r', '-p'] + allow, 'hostnames': ['a.example'],
+                                'url': 'http://%s/img/y.png' % h,
+                                'record': dict(base, inline_level=inline, parent_url=parent), 'is_redirect': False})
     # suffix lists given as comma separated LISTs
     for opt in ('-A', '-R'):
         for lst in ('html', 'html,png', 'tmp[!0-9]', 'bmp,jp[eg]', 'x?z', '[!a]', 'image.*.png'):
@@ -1091,7 +1115,7 @@ def gen_web_case(rng):
     elif r < 0.6:
         site['http://a.example/robots.txt'] = [500, None, 'oops']
     rec = gen_record(rng, args, url)
-    if rng.random() < 0.5:
+    if rng.random() < 0.8:
         rec.update(level=0, inline_level=None, try_count=0, parent_url=None)
     return {'argv': argv, 'hostnames': rng.choice([['a.example'], ['a.example'], ['a.example', 'b.example']]),
             'url': url, 'record': rec, 'site': site}
@@ -1104,9 +1128,9 @@ FTP_PATHS = ['/pub/file.txt', '/pub/y.png', '/pub/sub', '/pub/sub/', '/pub/', '/
 def gen_ftp_case(rng):
     argv = session_argv(rng, False)
     args = parse_args(argv)
-    url = 'ftp://%s%s' % (rng.choice(['a.example', 'a.example', 'b.example', 'www.a.example']), rng.choice(FTP_PATHS))
+    url = 'ftp://%s%s' % (rng.choice(['a.example', 'a.example', 'a.example', 'a.example', 'b.example', 'www.a.example']), rng.choice(FTP_PATHS))
     rec = gen_record(rng, args, url)
-    if rng.random() < 0.5:
+    if rng.random() < 0.8:
         rec.update(level=0, inline_level=None, try_count=0, parent_url=None)
     r = rng.random()
     rec['link_type'] = None if r < 0.6 else ('file' if r < 0.8 else 'directory')
@@ -1267,18 +1291,18 @@ def run(ctx):
         stream_subdir(ctx, sub, log)
         # option -> filters -> verdict
         run_tests(ctx, boundary_cases(rng), log)
-        n = ctx.scale(12000, 300000)
+        n = ctx.scale(20000, 400000)
         chunk = 4000
         for start in range(0, n, chunk):
             run_tests(ctx, [gen_case(rng) for _ in range(min(chunk, n - start))], log)
-        n = ctx.scale(3000, 60000)
+        n = ctx.scale(5000, 80000)
         for start in range(0, n, chunk):
             run_rawtests(ctx, [gen_raw_case(rng) for _ in range(min(chunk, n - start))], log)
         # part (b): the real processor sessions
         web, ftp = fixed_session_cases()
         srng = ctx.subrng('sessions')
-        run_web_cases(ctx, web + [gen_web_case(srng) for _ in range(ctx.scale(400, 6000))], log)
-        run_ftp_cases(ctx, ftp + [gen_ftp_case(srng) for _ in range(ctx.scale(300, 4000))], log)
+        run_web_cases(ctx, web + [gen_web_case(srng) for _ in range(ctx.scale(600, 8000))], log)
+        run_ftp_cases(ctx, ftp + [gen_ftp_case(srng) for _ in range(ctx.scale(450, 6000))], log)
     ctx.note('todo', 'part (b) end-to-end: replay the request logs of whole crawls (C01 harness, second forbidden host) against the model')
 
 
@@ -1286,8 +1310,8 @@ def search(ctx):
     rng = ctx.subrng('search')
     with CallLog() as log:
         run_tests(ctx, boundary_cases(rng), log)
-        for _ in range(5):
-            run_tests(ctx, [gen_case(rng) for _ in range(ctx.scale(400, 2000))], log)
+        for _ in range(3):
+            run_tests(ctx, [gen_case(rng) for _ in range(ctx.scale(300, 1000))], log)
         run_rawtests(ctx, [gen_raw_case(rng) for _ in range(ctx.scale(300, 1000))], log)
         run_web_cases(ctx, [gen_web_case(rng) for _ in range(ctx.scale(100, 300))], log)
         run_ftp_cases(ctx, [gen_ftp_case(rng) for _ in range(ctx.scale(100, 300))], log)
